@@ -472,7 +472,8 @@ PROPS = {
     "C04": {
         "properties": [
             "C04",
-            "C04_mysql"
+            "C04_mysql",
+            "C04_portal"
         ],
         "domains": [
             {
@@ -480,6 +481,13 @@ PROPS = {
                 "run_vo": "Model/RunProxy.vo",
                 "n_quick": 60,
                 "n_thorough": 600,
+                "model": True
+            },
+            {
+                "name": "c04portal",
+                "run_vo": "Model/RunProxyPortal.vo",
+                "n_quick": 40,
+                "n_thorough": 400,
                 "model": True
             },
             {
@@ -497,17 +505,21 @@ PROPS = {
             "not covered: tokenized / typed (data_type) / masked columns, searchable columns are oracle-only (C09-C11, C19 own them), TLS, censor",
             "MySQL path (domain c04my, harness/myrig): in-process rig = harness ClientSession over net.Pipe, decryptor/mysql.NewProxyFactory(...).New with both proxy goroutines, scripted client (COM_QUERY, COM_STMT_PREPARE/EXECUTE/CLOSE, with and without CLIENT_DEPRECATE_EOF) and a recording fake MySQL server written from the protocol documentation; the fake server reads forwarded statements with its OWN lexer for MySQL literals (harness/myrig/sql.go, twin of Model/ProxyMysql.v my_read_literal), not with acra's sqlparser",
             "MySQL statement analysis (encryptor/mysql on sqlparser trees), placeholder mapping, COM_STMT_EXECUTE packet re-encoding and the result row handlers are covered by the end-to-end oracle and the Sess/Read replay on the abstract statement form; the literal coder (dbDataCoder.go + UpdateExpressionValue + SQLVal.Format) is modelled and replayed byte for byte (op MyLit); utf8.Valid / strconv.Atoi are parameters of the model (their answers are part of the replayed op)",
+            "portal domain (c04portal, harness/vh/pgportal.go): message-level scripted client and a portal-capable fake back end written from the PostgreSQL protocol documentation (statement runs at the first Execute, max_rows / PortalSuspended, skip-to-Sync after an error, portals dropped at Sync outside a transaction block, a simple Query ignored while skipping); the back end waits after every CommandComplete / PortalSuspended / EmptyQueryResponse / ErrorResponse / ReadyForQuery until the scripted client has received it and samples pendingQueryPackets (hook decryptor/postgresql/export_verif_portal.go VerifPendingEntries) before it answers an Execute: the head of that sample is replayed on Model/ProxyPortal.v; the client side of the proxy is never slowed down (pipelining is real); the row oracle compares what the client received with what the back end sent for the same Execute (terminator log of the back end)",
+            "portal model: the theorems C04_portal_* are about the queue + an abstract in-order back end (Model/ProxyPortal.v Part 2); which column settings a queue entry selects (statement analysis of the text it carries) and the result-format handling stay covered by the row oracle only; RowDescription type OIDs in pipelined sessions are not checked (handleRowDescription uses the session's last parsed statement); typed (data_type: str) columns occur in this domain only as an indicator of the settings used for a row",
             "MySQL replay conventions: INSERT .. ON DUPLICATE KEY UPDATE on an existing key = abstract Update, on a fresh key = abstract Insert (its ON DUPLICATE values oracle-only); statements MySQL rejects (tuple length <> column count) = abstract Other; scenarios with NULL parameters or the known-finding shape are oracle-only"
         ],
         "assumptions": [
             "Correct C as an explicit premise; tape/key well-formedness premises of the C01 theorems",
-            "encryptor config column lists agree with the database's column order (SELECT * / schema-ordered VALUES)"
+            "encryptor config column lists agree with the database's column order (SELECT * / schema-ordered VALUES)",
+            "C04_portal_*: the database answers the forwarded messages in order as the PostgreSQL protocol prescribes (one terminator per Execute, skip to Sync after an error, ReadyForQuery per Sync / simple Query); the client sends a simple Query only when no extended-protocol message is unsynced (PostgreSQL ignores such a Query while it skips to Sync); multi-statement simple queries are outside (acra documents them as unsupported)"
         ]
     },
     "C05": {
         "properties": [
             "C05",
-            "C05_patterns"
+            "C05_patterns",
+            "C05_prepared"
         ],
         "domains": [
             {
@@ -530,16 +542,25 @@ PROPS = {
                 "n_quick": 14,
                 "n_thorough": 150,
                 "model": True
+            },
+            {
+                "name": "c05prep",
+                "run_vo": "Model/RunPgPrepared.vo",
+                "n_quick": 48,
+                "n_thorough": 1200,
+                "model": True
             }
         ],
         "trusted": [
             "modelled, not verified: the yacc SQL parser/normalizer (formatting invariance is checked differentially on the real AcraCensor only) and common.ParsePatterns (placeholder text replacement + parse): statements and parsed patterns enter the pattern model as the tree forms of their REAL ASTs, exported by reflection (harness/cmd/acra-vh/c05pat_tree.go; kinds/field names/placeholder statements regenerated into coq/Gen/Censor{Kinds,Patterns,Witness}.v)",
             "pattern model (Model/CensorPattern.v): strings.EqualFold / strings.ToLower are modelled on ASCII (the generator keeps identifiers and keywords ASCII; non-ASCII only inside literals, which are compared byte-wise); the shape predicate wf (mandatory operands present, slice fields hold slices) is an assumption of the theorems that the replay checks on every exported tree; exact-query match results (CheckExactQueriesMatch: a map lookup) stay inputs of the chain model",
-            "session model covers the simple query protocol ('Q'); extended protocol (Parse/Bind/Execute) and the MySQL proxy are not modelled",
+            "session models: Model/PgSession.v covers the simple query protocol ('Q'); Model/PgPrepared.v (C05_prepared, domain c05prep) covers the extended protocol around the prepared-statement registry, the portal registry and pendingQueryPackets (Parse / Bind / Execute by name, unnamed and named, re-Parse of a name; Describe / Close / Sync / Flush are forwarded without state change, as in the code: the proxy never calls DeleteStatement/DeleteCursor for a Close). Not modelled: Bind parameters and what the observers do with them (only WHICH statement they are handed is observed, by a recording query observer), RowDescription / ParameterDescription rewriting (session-scoped QueryDataItems), PortalSuspended / row-limited Execute, SQL-level PREPARE / EXECUTE / DEALLOCATE, the MySQL proxy",
+            "c05prep reads Acra's own view of the session through the add-only hook decryptor/postgresql/export_verif_s43.go (registry name -> text, portal -> text, pending query packets) and through a recording QueryObserver registered like the real ones (harness/censorrig/pgrig_prep.go)",
             "in-process PostgreSQL rig (harness/vh/pgrig.go): net.Pipe pairs, scripted client and fake back end, read-start synchronisation on the proxy's database connection"
         ],
         "assumptions": [
             "queue_aligned: the database answers the statements it received in order, one completion (CommandComplete/ErrorResponse) + ReadyForQuery per statement (simple protocol, single-statement queries)",
+            "C05_prepared_aligned / C05_prepared_registries_agree: the database keeps its registries from the packets it receives (Parse: name -> statement, Bind: portal -> statement of that name, Execute: queues the portal's statement), accepts every forwarded Parse and Bind, answers executions in order with one completion each, and does not drop a statement or portal on Close / at the end of a transaction (the generated sessions do not re-use a closed name before re-creating it); the database-side errors of the extended protocol (Bind/Execute of a name the database does not know, skip-until-Sync) are outside the model",
             "wf (C05_patterns): statement and pattern trees have the shape the sqlparser grammar produces (no nil where the grammar always puts an operand; SQLVal.unknown only under UnknownVal); validated on every tree the harness exports"
         ]
     },
